@@ -1,6 +1,7 @@
 import Driver.Util
 import NutsModel.C09.Ambassador
 import NutsModel.C09.Entry
+import NutsModel.C09.Manager
 import NutsModel.Facts.C09
 import NutsModel.Facts.C10
 open Lean Nuts.Drv Nuts.C10 Nuts.C09 Nuts
@@ -197,6 +198,18 @@ def step (st : St) (j : Json) : St × List String :=
       ({ st' with lastObs := o }, [s!"{hdr} ok [{if dup then "db-same" else "db-changed"}] {shown}"])
     | .err e => (st, [s!"{hdr} err:{e} [db-same] ="])
     | .panic x => (st, [s!"{hdr} panic:{x} [db-same] ="])
+  | "mgr" =>
+    -- the node's own publishing path: Manager.Update on the store of this moment, key store = the listed key ids
+    let hdr := s!"mgr {jInt j "h"}.{jNat j "i"}.{jNat j "j"}"
+    if (jObj j "doc").isNull then (st, [s!"{hdr} err:mgr:unparseable"])
+    else
+      let next := parseDoc (jObj j "doc")
+      let has := jStrs j "has"
+      let c := cfgFor none ""
+      match managerUpdate c st.store (fun k => has.contains k) (jBool j "svcOk") (jStr j "id") next with
+      | .ok p => (st, [s!"{hdr} ok kid={p.kid} prevs=[{String.intercalate "," (p.prevs.map shortRef)}]"])
+      | .err e => (st, [s!"{hdr} err:{e}"])
+      | .panic x => (st, [s!"{hdr} panic:{x}"])
   | "reprocess" =>
     -- REPROCESS of application/did+json: the listed transactions go through `callback` again, in order
     let idx := jNats j "is"
